@@ -365,3 +365,133 @@ pub fn random_token(rng: &mut Rng) -> Token {
     }
     Token { text, family }
 }
+
+// ===================================================================== deepening families
+
+/// 64- and 128-bit boundary magnitudes written in every radix form with one `_`
+/// at **every** position of the digit string (0 = right after the prefix, n = at
+/// the end), and with two `_` at every adjacent pair of positions for the
+/// shorter forms. Sign none and `-`.
+pub fn int_separator_tokens() -> Vec<Token> {
+    let one = BigUint::from_u128(1);
+    let mut mags = Vec::new();
+    for bits in [64u32, 128] {
+        let half = BigUint::pow2(bits - 1);
+        let full = BigUint::pow2(bits);
+        mags.push(half.checked_sub(&one).unwrap());
+        mags.push(half.clone());
+        mags.push(half.add(&one));
+        mags.push(full.checked_sub(&one).unwrap());
+        mags.push(full);
+    }
+    let mut out = Vec::new();
+    for m in &mags {
+        let forms: Vec<(&str, String)> = vec![
+            ("", m.to_radix(10, false)),
+            ("0x", m.to_radix(16, false)),
+            ("0o", m.to_radix(8, false)),
+            ("0b", m.to_radix(2, false)),
+            ("00", m.to_radix(8, false)),
+        ];
+        for (p, d) in forms {
+            for pos in 0..=d.len() {
+                let t = insert_at(&d, pos, "_");
+                for sign in ["", "-"] {
+                    out.push(Token { text: format!("{sign}{p}{t}"), family: Family::Int });
+                }
+                if d.len() <= 44 && pos < d.len() {
+                    let t2 = insert_at(&t, pos + 2, "_");
+                    out.push(Token { text: format!("{p}{t2}"), family: Family::Int });
+                }
+            }
+        }
+    }
+    let mut seen = HashSet::new();
+    out.retain(|t| seen.insert(t.text.clone()));
+    out
+}
+
+/// Float literals with extreme exponents and very long mantissas:
+/// * ten mantissas × every decimal exponent −400..=400;
+/// * digit strings of 60…800 digits with the point at a random place and a
+///   random exponent (from `rng`);
+/// * exact decimal expansions of half-way points between adjacent f64 / f32
+///   values (up to ~770 digits), the same nudged just above and just below —
+///   from fixed bit patterns around every format boundary plus patterns from `rng`.
+pub fn long_float_tokens(rng: &mut Rng, n_random_mantissas: usize, n_random_midpoints: usize) -> Vec<Token> {
+    use crate::refscalar::{F32_FORMAT, F64_FORMAT, midpoint_above};
+    let mut out: Vec<String> = Vec::new();
+    for m in [
+        "1", "5", "2.5", "9.99999999999999999999", "1.7976931348623157", "4.9406564584124654", "2.2250738585072014", "1.1754943508222875",
+        "3.4028234663852886", "1.401298464324817",
+    ] {
+        for e in -400..=400 {
+            out.push(format!("{m}e{e}"));
+        }
+    }
+    for i in 0..n_random_mantissas {
+        let len = *rng.pick(&[60usize, 100, 200, 400, 767, 800]);
+        let mut d = String::with_capacity(len + 8);
+        for j in 0..len {
+            let c = if j == 0 { b'1' + rng.below(9) as u8 } else { b'0' + rng.below(10) as u8 };
+            d.push(c as char);
+        }
+        let point = rng.below(len + 1);
+        let mut s = match point {
+            0 => format!(".{d}"),
+            p if p == len => d.clone(),
+            p => format!("{}.{}", &d[..p], &d[p..]),
+        };
+        match i % 4 {
+            0 => {}
+            1 => s.push_str(&format!("e{}", rng.below(700) as i64 - 350 - point as i64)),
+            2 => s.push_str(&format!("E-{}", point + rng.below(340))),
+            _ => s.push_str(&format!("e+{}", rng.below(320))),
+        }
+        out.push(if rng.chance(1, 4) { format!("-{s}") } else { s });
+    }
+    let nudge = |out: &mut Vec<String>, mid: String| {
+        out.push(format!("{mid}0000000000000000000001"));
+        let last = *mid.as_bytes().last().unwrap();
+        if last.is_ascii_digit() && last > b'0' {
+            let mut s = mid[..mid.len() - 1].to_string();
+            s.push((last - 1) as char);
+            s.push_str("9999999999999999999999");
+            out.push(s);
+        }
+        out.push(mid);
+    };
+    let mut f64_bits: Vec<u64> = vec![
+        0, 1, 2, 3, 0x000F_FFFF_FFFF_FFFE, 0x000F_FFFF_FFFF_FFFF, 0x0010_0000_0000_0000, 0x0010_0000_0000_0001, 0x001F_FFFF_FFFF_FFFF,
+        0x3FEF_FFFF_FFFF_FFFF, 0x3FF0_0000_0000_0000, 0x3FF0_0000_0000_0001, 0x433F_FFFF_FFFF_FFFF, 0x4340_0000_0000_0000, 0x7FEF_FFFF_FFFF_FFFE,
+        0x7FEF_FFFF_FFFF_FFFF,
+    ];
+    let mut f32_bits: Vec<u32> = vec![0, 1, 2, 0x007F_FFFE, 0x007F_FFFF, 0x0080_0000, 0x0080_0001, 0x3F7F_FFFF, 0x3F80_0000, 0x3F80_0001, 0x4B7F_FFFF, 0x7F7F_FFFE, 0x7F7F_FFFF];
+    for _ in 0..n_random_midpoints {
+        let be = match rng.below(4) {
+            0 => rng.below(3) as u64,
+            1 => 2044 + rng.below(3) as u64,
+            _ => rng.below(2047) as u64,
+        };
+        f64_bits.push((be << 52) | (rng.next_u64() & ((1 << 52) - 1)));
+        let be32 = match rng.below(4) {
+            0 => rng.below(3) as u32,
+            1 => 252 + rng.below(3) as u32,
+            _ => rng.below(255) as u32,
+        };
+        f32_bits.push((be32 << 23) | (rng.next_u64() as u32 & ((1 << 23) - 1)));
+    }
+    for b in f64_bits {
+        if let Some(mid) = midpoint_above(b, F64_FORMAT) {
+            nudge(&mut out, mid);
+        }
+    }
+    for b in f32_bits {
+        if let Some(mid) = midpoint_above(b as u64, F32_FORMAT) {
+            nudge(&mut out, mid);
+        }
+    }
+    let mut seen = HashSet::new();
+    out.retain(|t| seen.insert(t.clone()));
+    out.into_iter().map(|text| Token { text, family: Family::Float }).collect()
+}
